@@ -69,7 +69,7 @@ def run_mem(case, stats):
         r0.cleanup()
         ref.dispose()
     cap = capfn(case["cap"], rng)
-    sess = gen.make_session(case["impl"], sc["dims"], case["seed"], writecap=cap)
+    sess = gen.make_session(case["impl"], sc["dims"], case["seed"], writecap=cap, budget=400000)
     r1 = scen.Runner(sess, sc)
     try:
         # (make_session connected with the cap already in force)
@@ -83,7 +83,7 @@ def run_mem(case, stats):
             if o.ok and v:
                 viol.append({"mechanism": "wrong-result", "detail": "cap=%s: step %d %s returned a wrong result: %s" % (case["cap"], i, step["op"], v[0]["detail"][:160])})
             if not o.ok:
-                mech = "short-write-truncates-message" if o.exc_name() in ("AdbTimeoutError", "TcpTimeoutException", "InvalidChecksumError", "InvalidCommandError") else "raised:%s" % o.exc_name()
+                mech = "write-loop-does-not-terminate" if o.kind == "budget" else "short-write-truncates-message" if o.exc_name() in ("AdbTimeoutError", "TcpTimeoutException", "InvalidChecksumError", "InvalidCommandError") else "raised:%s" % o.exc_name()
                 viol.append({"mechanism": mech, "detail": "cap=%s: step %d %s raised %s although the transport only wrote short (no failure)" % (case["cap"], i, step["op"], o.brief(120))})
         if sess.sim.framing_error is not None:
             viol.append({"mechanism": "short-write-truncates-message", "detail": "cap=%s: the peer's parser failed: %s" % (case["cap"], sess.sim.framing_error)})
